@@ -55,23 +55,85 @@ func (c *c06AddrConn) LocalAddr() net.Addr {
 // fsm.stateChange(ESTABLISHED) derives every per-session input of the error handling from them
 // (isEBGP, isConfed, isTreatAsWithdraw, twoByteAsTrans, familyMap).  The harness sets none of them.
 func (c *c06Session) establish(t *testing.T, as uint32, revised, fourOctet, v6 bool) {
+	c.establishShape(t, as, revised, fourOctet, v6, "mp-explicit")
+}
+
+// shapes of the peer's OPEN as far as the negotiated families are concerned
+var c06OpenShapes = []string{"mp-explicit", "mp-explicit", "mp-explicit", "caps-without-mp", "mp-other-only", "mp-twice",
+	"split-optparams", "addpath-other-family", "addpath-v4-offered", "extnh-other-family", "no-optparams"}
+
+// c06Open builds the optional parameters of the OPEN and says, BY THE RFC RULES (RFC 4760 section 8,
+// RFC 5492), which of IPv4 / IPv6 unicast the session carries: the families of the MULTIPROTOCOL
+// capabilities present; IPv4 unicast alone when no MULTIPROTOCOL capability is present at all, whatever
+// else the OPEN holds; an ADD-PATH or extended-next-hop capability does not add a family.
+func c06Open(shape string, as uint32, fourOctet, v6 bool) (params []bgp.OptionParameterInterface, v4c, v6c bool) {
+	mp4, mp6 := bgp.NewCapMultiProtocol(bgp.RF_IPv4_UC), bgp.NewCapMultiProtocol(bgp.RF_IPv6_UC)
+	var caps []bgp.ParameterCapabilityInterface
+	caps = append(caps, bgp.NewCapRouteRefresh())
+	if fourOctet {
+		caps = append(caps, bgp.NewCapFourOctetASNumber(as))
+	}
+	one := func() []bgp.OptionParameterInterface {
+		return []bgp.OptionParameterInterface{bgp.NewOptionParameterCapability(caps)}
+	}
+	switch shape {
+	case "no-optparams": // only legal without the 4-octet-AS capability
+		return nil, true, false
+	case "caps-without-mp":
+		return one(), true, false
+	case "mp-other-only":
+		caps = append(caps, mp6)
+		return one(), false, true
+	case "mp-twice":
+		caps = append(caps, mp4, mp4)
+		if v6 {
+			caps = append(caps, mp6, mp6)
+		}
+		return one(), true, v6
+	case "split-optparams":
+		p1 := bgp.NewOptionParameterCapability(caps)
+		second := []bgp.ParameterCapabilityInterface{mp4}
+		if v6 {
+			second = append(second, mp6)
+		}
+		return []bgp.OptionParameterInterface{p1, bgp.NewOptionParameterCapability(second)}, true, v6
+	case "addpath-other-family":
+		caps = append(caps, mp4, bgp.NewCapAddPath([]*bgp.CapAddPathTuple{bgp.NewCapAddPathTuple(bgp.RF_IPv6_UC, bgp.BGP_ADD_PATH_BOTH)}))
+		return one(), true, false
+	case "addpath-v4-offered": // the peer offers ADD-PATH, the neighbour is not configured for it: not negotiated
+		caps = append(caps, mp4, bgp.NewCapAddPath([]*bgp.CapAddPathTuple{bgp.NewCapAddPathTuple(bgp.RF_IPv4_UC, bgp.BGP_ADD_PATH_BOTH)}))
+		if v6 {
+			caps = append(caps, mp6)
+		}
+		return one(), true, v6
+	case "extnh-other-family":
+		caps = append(caps, mp4, bgp.NewCapExtendedNexthop([]*bgp.CapExtendedNexthopTuple{bgp.NewCapExtendedNexthopTuple(bgp.RF_IPv6_UC, bgp.AFI_IP)}))
+		return one(), true, false
+	}
+	caps = append(caps, mp4)
+	if v6 {
+		caps = append(caps, mp6)
+	}
+	return one(), true, v6
+}
+
+func (c *c06Session) establishShape(t *testing.T, as uint32, revised, fourOctet, v6 bool, shape string) (bool, bool) {
 	f := c.peer.fsm
 	f.lock.Lock()
 	conf := f.pConf.ReadCopy()
 	conf.ErrorHandling.Config.TreatAsWithdraw = revised
 	f.pConf.Update(&conf)
 	f.lock.Unlock()
-	caps := []bgp.ParameterCapabilityInterface{bgp.NewCapRouteRefresh(), bgp.NewCapMultiProtocol(bgp.RF_IPv4_UC)}
-	if v6 {
-		caps = append(caps, bgp.NewCapMultiProtocol(bgp.RF_IPv6_UC))
+	if shape == "no-optparams" && fourOctet {
+		shape = "caps-without-mp"
 	}
-	if fourOctet {
-		caps = append(caps, bgp.NewCapFourOctetASNumber(as))
-	}
-	open, err := bgp.NewBGPOpenMessage(uint16(as), 90, c.rid, []bgp.OptionParameterInterface{bgp.NewOptionParameterCapability(caps)})
+	params, v4c, v6c := c06Open(shape, as, fourOctet, v6)
+	open, err := bgp.NewBGPOpenMessage(uint16(as), 90, c.rid, params)
 	if err != nil {
 		t.Fatal(err)
 	}
+	defer func() { c.sessions++ }()
+	c.lastV4, c.lastV6 = v4c, v6c
 	f.recvOpen = open
 	f.conn = &c06AddrConn{remote: c.addr}
 	f.stateChange(bgp.BGP_FSM_ESTABLISHED, newfsmStateReason(fsmOpenMsgNegotiated, nil, nil))
@@ -80,7 +142,7 @@ func (c *c06Session) establish(t *testing.T, as uint32, revised, fourOctet, v6 b
 	ro := f.pConf.ReadOnly()
 	c.peer.peerInfo.Store(table.NewPeerInfo(f.gConf, ro, ro.State.PeerAs, ro.Config.LocalAs, ro.State.RemoteRouterId,
 		f.gConf.Config.RouterId, ro.Transport.State.RemoteAddress, ro.Transport.State.LocalAddress))
-	c.sessions++
+	return v4c, v6c
 }
 
 func c06Frame(body []byte) []byte {
@@ -99,6 +161,7 @@ type c06Session struct {
 	addr netip.Addr
 	rid  netip.Addr
 	sessions int
+	lastV4, lastV6 bool
 }
 
 func c06AttrList(l []bgp.PathAttributeInterface) string {
@@ -454,6 +517,7 @@ func TestVerifC06Server(t *testing.T) {
 	rankName := map[int]string{0: "install", 1: "discard", 2: "withdraw", 4: "reset"}
 
 	floating := false // next case on the neighbour whose peer AS is not configured
+	shapeOverride := "mp-explicit" // shape of the OPEN of the session under test ("" = random)
 	runCase := func(m *c06Msg, revised bool, v6 bool, label string) {
 		c := sess[m.peer]
 		as := peerAS[m.peer]
@@ -502,8 +566,19 @@ func TestVerifC06Server(t *testing.T) {
 		}
 		// the session under test: configuration and OPEN of the case; whatever the previous session
 		// (other treat-as-withdraw setting, other families, other peer type) left in the fsm must not matter
-		c.establish(t, as, revised, !m.use2, v6)
+		shape := shapeOverride
+		if shape == "" {
+			shape = c06OpenShapes[r.intn(len(c06OpenShapes))]
+		}
+		if shape == "no-optparams" && !m.use2 {
+			shape = "caps-without-mp"
+		}
+		v4, v6c := c.establishShape(t, as, revised, !m.use2, v6, shape)
+		v6 = v6c
+		detail["open"] = fmt.Sprintf("AS %d, 4-octet-AS capability %v, shape %s (carries IPv4 %v, IPv6 %v by RFC 4760/5492)", as, !m.use2 && shape != "no-optparams", shape, v4, v6)
+		detail["v6"] = v6
 		o.stat(fmt.Sprintf("open_fouroctet_%d_revised_%d", c06B(!m.use2), c06B(revised)), 1)
+		o.stat("open_shape_"+shape, 1)
 		_ = f
 		var notif *bgp.BGPNotification
 		panicked := func() (p bool) {
@@ -516,7 +591,7 @@ func TestVerifC06Server(t *testing.T) {
 			notif = c.feed(body)
 			return false
 		}()
-		cfg := fmt.Sprintf("%d %d %d 0 1 %d", c06B(revised), c06B(m.peer != 1), c06B(m.peer == 2), c06B(v6))
+		cfg := fmt.Sprintf("%d %d %d 0 %d %d", c06B(revised), c06B(m.peer != 1), c06B(m.peer == 2), c06B(v4), c06B(v6))
 		if panicked {
 			o.ask("panic", "act %s %d %s", cfg, c06B(m.use2), hx)
 			o.fail("receive-path-panic", detail)
@@ -572,7 +647,10 @@ func TestVerifC06Server(t *testing.T) {
 		for _, p := range glob {
 			c06CheckRoute(o, "loc-rib", p, m, detail)
 		}
-		if len(m.faults) == 0 && v6 {
+		usesV4 := len(m.nlri) > 0 || len(m.wd) > 0
+		usesV6 := m.count(14) > 0 || m.count(15) > 0
+		if len(m.faults) == 0 && (!usesV4 || v4) && (!usesV6 || v6) {
+			// well-formed, and every family it uses is carried by the session BY THE RFC RULES
 			if rank != 0 {
 				o.fail("wellformed-penalised", detail)
 			}
@@ -602,7 +680,7 @@ func TestVerifC06Server(t *testing.T) {
 			}
 			// ... and not stronger either: with revised handling configured for the neighbour, faults that
 			// RFC 7606 AND gobgp's own table put at attribute-discard / treat-as-withdraw must not cost the session
-			if revised && rank == 4 && m.count(18) == 0 && (v6 || (m.count(14) == 0 && m.count(15) == 0)) {
+			if revised && rank == 4 && m.count(18) == 0 && (v6 || !usesV6) && (v4 || !usesV4) {
 				soft := true
 				for _, ft := range m.faults {
 					nm := ft.name
@@ -798,6 +876,36 @@ func TestVerifC06Server(t *testing.T) {
 		}
 	}
 
+	{
+		// seed C06-P class: every shape of the peer's OPEN, with a clean IPv4 announcement (must be installed
+		// when the session carries IPv4 unicast by the RFC rules, also when that is only IMPLIED by the
+		// absence of any MULTIPROTOCOL capability) and with a treat-as-withdraw class fault
+		k := 0
+		for _, shape := range []string{"caps-without-mp", "no-optparams", "mp-other-only", "mp-twice", "split-optparams",
+			"addpath-other-family", "addpath-v4-offered", "extnh-other-family", "mp-explicit"} {
+			for _, use2 := range []bool{false, true} {
+				k++
+				as := []byte{2, 1, 0, 0, 0xfd, 0xe9}
+				if use2 {
+					as = []byte{2, 1, 0xfd, 0xe9}
+				}
+				good := &c06Msg{peer: 0, use2: use2, nlri: [][]byte{{24, 10, 96, byte(k)}}}
+				good.attrs = []c06Attr{
+					{typ: 1, flags: 0x40, val: []byte{0}, decl: -1},
+					{typ: 2, flags: 0x40, val: as, decl: -1},
+					{typ: 3, flags: 0x40, val: []byte{10, 0, 0, 1}, decl: -1},
+				}
+				shapeOverride = shape
+				runCase(good, true, true, "corpus")
+				bad := c06Clone(good)
+				bad.attrs[0].val, bad.attrs[0].tag = []byte{0, 0}, "len"
+				bad.faults = []c06Fault{{"len:1", c06Withdraw, 1}}
+				runCase(bad, true, true, "corpus")
+			}
+		}
+		shapeOverride = "mp-explicit"
+	}
+
 	n := 2500
 	if o.thorough {
 		n = 20000
@@ -822,8 +930,10 @@ func TestVerifC06Server(t *testing.T) {
 			o.stat("fault_"+nm, 1)
 		}
 		floating = r.chance(30)
+		shapeOverride = ""
 		runCase(m, revised, !r.chance(10), "peer_"+[]string{"ebgp", "ibgp", "confed"}[peer])
 		floating = false
+		shapeOverride = "mp-explicit"
 	}
 
 	// ------------------------------------------------------------------------------------------
@@ -960,6 +1070,15 @@ func TestVerifC06Server(t *testing.T) {
 			}
 			return ks
 		}
+		shape := c06OpenShapes[r.intn(len(c06OpenShapes))]
+		if shape == "mp-other-only" {
+			shape = "caps-without-mp" // the sequences announce IPv4 prefixes
+		}
+		if shape == "no-optparams" && !base.use2 {
+			shape = "caps-without-mp"
+		}
+		_, _, v6 = c06Open(shape, as, !base.use2, v6)
+		o.stat("seq_open_shape_"+shape, 1)
 		cfg := fmt.Sprintf("%d %d %d 0 1 %d", c06B(revised), c06B(peer != 1), c06B(peer == 2), c06B(v6))
 		// (1) reference: every message alone, first on a fresh session with the same parameters
 		type obs struct {
@@ -969,7 +1088,7 @@ func TestVerifC06Server(t *testing.T) {
 		ref := make([]obs, len(msgs))
 		for i := range msgs {
 			c.drop()
-			c.establish(t, as, revised, !base.use2, v6)
+			c.establishShape(t, as, revised, !base.use2, v6, shape)
 			if n := c.feedRaw(bodies[i]); n != nil {
 				ref[i].got = fmt.Sprintf("reset %d %d", n.ErrorCode, n.ErrorSubcode)
 			} else if len(c.got) == 1 {
@@ -982,7 +1101,7 @@ func TestVerifC06Server(t *testing.T) {
 		}
 		// (2) the sequence: ONE session, one recvMessageloop over the whole stream
 		c.drop()
-		c.establish(t, as, revised, !base.use2, v6)
+		c.establishShape(t, as, revised, !base.use2, v6, shape)
 		notif := c.feedRaw(bodies...)
 		delivered := len(c.got)
 		neutral := &c06Msg{peer: peer}
@@ -993,7 +1112,7 @@ func TestVerifC06Server(t *testing.T) {
 		for i := range msgs {
 			m := msgs[i]
 			detail := map[string]any{"sequence": names, "index": i, "variant": names[i], "body": m.hex(), "peer": peer,
-				"revised": revised, "use2": base.use2, "v6": v6, "faults": m.faultNames()}
+				"revised": revised, "use2": base.use2, "v6": v6, "open_shape": shape, "faults": m.faultNames()}
 			var hexes []string
 			for k := 0; k <= i; k++ {
 				hexes = append(hexes, msgs[k].hex())
